@@ -123,6 +123,7 @@ def full_mention(p):
         st.builds(lambda n, v, j: ['a', n, 'expr', v, j], st.sampled_from(['t', 'title', 'for']), ex, joined),
         st.builds(lambda n, j: ['a', n, 'bool', None, j], name, joined),
         st.builds(lambda n, j: ['a', n, 'impl', None, j], name, joined),
+        st.builds(lambda n, j: ['a', n, 'impl-bool', None, j], name, joined),
         st.builds(lambda n, f, v, j: ['a', n, f, v, j], name, st.sampled_from(['impl-raw', 'impl-dq']), st.text(alphabet='abc12', min_size=1, max_size=3).map(lambda s: [s]), joined),
     )
 
@@ -223,6 +224,9 @@ def script(draw, p, depth=0):
             ops = ['+', '+', '^', '^^', '^^^']
             if 'g' not in it and (it['n'] or it['m']) and not it['sc']:
                 ops += ['>', '>', '>', '>']
+            elif 'g' not in it and it['sc'] and getattr(p, 'child_after_sc', True):
+                # `br/>b`: the element after `>` still nests inside the one before it (the self-closing mark then has no effect)
+                ops += ['>']
             sc.append(draw(st.sampled_from(ops)))
     return sc
 
